@@ -43,6 +43,7 @@ def run(rep: Report, tier: str) -> None:
 	rule_f(rep, idx, nm)
 	rule_walker_state(rep, idx)
 	rule_flatten_every_key(rep, idx)
+	rule_embed_on_function(rep, idx, nm)
 
 
 # ---- (a) list-ness ------------------------------------------------------------------------------------------------------
@@ -791,3 +792,23 @@ def rule_flatten_every_key(rep: Report, idx: SourceIndex) -> None:
 					r.check(not skips and not swallowed, f'{q}:loop', (rel, lp.lineno), f'the loop over prop_keys() in {q} {why}: the flatten side then pushes nothing for a property whose getter refuses its child (`"0123456789"[d]`, `(a, b)[i]`), while Procedure.__make_event still pops one result for it — the handler receives the result of the preceding sibling and the unmodified rejection (IllegalConvertion before any handler runs) turns into a misaligned run', unparse(lp)[:120])
 	if n_ == 0:
 		r.skip('prop_keys', None, 'no iteration over prop_keys() found in node.py / procedure.py')
+
+
+def rule_embed_on_function(rep: Report, idx: SourceIndex, nm: NodeModel) -> None:
+	"""`Meta.embed(Node, expandable)` files the decorated object under its name only when it is a plain function (`type(wrapped) is FunctionType`);
+	handed anything else — the `property` object when the two decorators are written in the other order — it records class metadata instead and the
+	property silently drops out of prop_keys(). The node then falls back to the resolvable-descendants walk while Procedure pops nothing for it: the
+	results of its children stay on the stack and shift every enclosing event. So every decorator BELOW an expandable registration must hand on the
+	function itself (`override`, `implements`): never `property`, `classmethod`, `staticmethod`, `cached_property`."""
+	r = rep.rule('C09/expandable-registered-on-the-function', 'for every method of a node class decorated with Meta.embed(Node, expandable): no decorator applied before it (written below it) turns the function into a descriptor', floor=90)
+	wrappers = {'property', 'classmethod', 'staticmethod', 'cached_property', 'functools.cached_property'}
+	for c in nm.classes + [nm.node_cls]:
+		for name, defs in c.methods.items():
+			for f in defs:
+				decs = f.node.decorator_list
+				at = next((i for i, d in enumerate(decs) if isinstance(d, ast.Call) and unparse(d.func).endswith('Meta.embed') and any('expandable' in unparse(a) for a in d.args)), None)
+				if at is None:
+					continue
+				below = [unparse(d) for d in decs[at + 1:]]
+				bad = [b for b in below if b in wrappers]
+				r.check(not bad, f'{c.name}.{name}', f.where, f'{c.name}.{name}: `@{bad[0] if bad else ""}` is applied BEFORE `@Meta.embed(Node, expandable)` (it is written below it): embed receives the {bad[0] if bad else ""} object, not the function, and registers nothing under `{name}` — prop_keys() of {c.name} loses the property, the walker flattens the node through the descendants fallback and Procedure pops no result for it (for `del a[0]`: the target results stay on the stack, the handler gets an empty event, the run ends with `Invalid number of stacks`)', ', '.join('@' + unparse(d) for d in decs)[:120])
